@@ -1,5 +1,6 @@
 """C17 — point-cloud tree construction yields the intended spanning tree."""
 import math
+import warnings
 from fractions import Fraction
 
 import numpy as np
@@ -340,6 +341,25 @@ class MstSuite(Suite):
                 o["soma"] = form != "none"
                 out.append({"class": f"types/{cdt}/soma-{form}/{kind}/bf{o['bf']}/k{o['k']}", "points": pts, "cloud_dtype": cdt,
                             **({"soma_as": form} if form != "none" else {}), **o})
+        # the spelling of the branching limit: PointsToMST takes it positionally, as `furcations=` or through the still documented deprecated alias
+        # `k_furcations=`; PointsToCuntzMST as `furcations=`, or left out where the documented default (2) is meant. Every spelling is the same
+        # transform. Clouds large enough for the limit (or its absence: MST clause) to matter, plus hub clouds whose root is limited
+        for i in range(16 if not big else 48):
+            spell = ("alias", "alias", "positional", "keyword", "alias", "alias", "default", "keyword")[i % 8]
+            # no limit and the tightest limit in turn (guaranteed), the others drawn
+            k = 2 if spell == "default" else (-1, 1)[(i // 2) % 2] if i < 12 else rng.choice([-1, 1, 2, 3])
+            api = "mst" if spell in ("alias", "positional") else rng.choice(["mst", "cuntz"])
+            if i % 4 == 1:
+                pts = [[0.0, 0.0, 0.0]] + [[10.0 * a + rng.randint(-8, 8) / 16, 10.0 * b + rng.randint(-8, 8) / 16, 10.0 * c + rng.randint(-8, 8) / 16]
+                                           for a, b, c in ((1, 0, 0), (-1, 0, 0), (0, 1, 0), (0, -1, 0), (0, 0, 1), (0, 0, -1))]
+                ex, soma, shape = False, False, "hub"
+            else:
+                pts, shape = None, "cloud"
+                while pts is None:
+                    pts = placed_cloud(rng, rng.randint(24, 40), rng.uniform(10, 100), [0.0, 0.0, 0.0], 1.0, "float64")
+                ex, soma = rng.random() < 0.6, rng.random() < 0.4
+            out.append({"class": f"spelling/{api}/{spell}/k{k}/{shape}", "points": pts, "bf": 0.0, "k": k, "exclude_soma": ex, "soma": soma,
+                        "sort": rng.random() < 0.5, "api": api, "spell": spell})
         return out
 
     @staticmethod
@@ -370,8 +390,18 @@ class MstSuite(Suite):
     def transform(case):
         from swcgeom.transforms import PointsToCuntzMST, PointsToMST
 
+        spell = case.get("spell", "positional")
+        if spell == "default" and case["k"] != 2:
+            raise ValueError("the documented default of the limit is 2")
         if case["api"] == "mst" and case["bf"] == 0:
-            return PointsToMST(case["k"], exclude_soma=case["exclude_soma"], sort=case["sort"])
+            kw = {"exclude_soma": case["exclude_soma"], "sort": case["sort"]}
+            if spell == "alias":
+                with warnings.catch_warnings():
+                    warnings.simplefilter("ignore", DeprecationWarning)
+                    return PointsToMST(k_furcations=case["k"], **kw)
+            return PointsToMST(**kw) if spell == "default" else PointsToMST(furcations=case["k"], **kw) if spell == "keyword" else PointsToMST(case["k"], **kw)
+        if spell == "default":
+            return PointsToCuntzMST(bf=case["bf"], exclude_soma=case["exclude_soma"], sort=case["sort"])
         return PointsToCuntzMST(bf=case["bf"], furcations=case["k"], exclude_soma=case["exclude_soma"], sort=case["sort"])
 
     @staticmethod
